@@ -295,6 +295,11 @@ def run_history(ctx, h):
         # ---- build arguments
         if o == "append":
             built = [gen.build(a) for a in op["args"]]
+            if len(live) and si % 5 == 0:
+                # the very same objects that are already children, once more (nothing is de-duplicated)
+                again = [x for x in list(live)[-3:]]
+                built = built + again + [again]
+                ctx.count("resupplied_existing_children")
             acc = built
             for a in op["args"]:
                 ctx.state("op_x_shape", (o, shape_of(a)))
